@@ -9,6 +9,7 @@ CONSTANTS
   MaxOps = 6
   Faults = {"stmt", "ctx", "commit"}
   AllowGap = TRUE
+  Dups = FALSE
   AllowRestart = TRUE
   AllowReorg = TRUE
   Rollups = {}
